@@ -1,42 +1,40 @@
 (* Driver for the extracted models: reads "<entry> <sexp>" lines on stdin,
    prints one result S-expression per line.  Only glue: text <-> Model.sexp. *)
-open Model
-
-let coq_ascii (c : char) : ascii =
+let coq_ascii (c : char) : Model.ascii =
   let n = Char.code c in
   let b i = (n lsr i) land 1 = 1 in
-  Ascii (b 0, b 1, b 2, b 3, b 4, b 5, b 6, b 7)
+  Model.Ascii (b 0, b 1, b 2, b 3, b 4, b 5, b 6, b 7)
 
 let coq_string (s : Stdlib.String.t) : Model.string =
-  let r = ref EmptyString in
+  let r = ref Model.EmptyString in
   for i = Stdlib.String.length s - 1 downto 0 do
-    r := String (coq_ascii s.[i], !r)
+    r := Model.String (coq_ascii s.[i], !r)
   done;
   !r
 
-let ocaml_char (a : ascii) : char =
+let ocaml_char (a : Model.ascii) : char =
   match a with
-  | Ascii (b0, b1, b2, b3, b4, b5, b6, b7) ->
+  | Model.Ascii (b0, b1, b2, b3, b4, b5, b6, b7) ->
     let v b i = if b then 1 lsl i else 0 in
     Char.chr (v b0 0 + v b1 1 + v b2 2 + v b3 3 + v b4 4 + v b5 5 + v b6 6 + v b7 7)
 
 let ocaml_string (s : Model.string) : Stdlib.String.t =
   let b = Buffer.create 16 in
   let rec go = function
-    | EmptyString -> ()
-    | String (a, r) -> Buffer.add_char b (ocaml_char a); go r in
+    | Model.EmptyString -> ()
+    | Model.String (a, r) -> Buffer.add_char b (ocaml_char a); go r in
   go s; Buffer.contents b
 
 exception Parse_error of Stdlib.String.t
 
 (* lists in parentheses, bare atoms, double-quoted atoms with backslash escapes (backslash, quote, xHH) *)
-let parse (s : Stdlib.String.t) (pos : int ref) : sexp =
+let parse (s : Stdlib.String.t) (pos : int ref) : Model.sexp =
   let n = Stdlib.String.length s in
   let rec skip () = if !pos < n && (s.[!pos] = ' ' || s.[!pos] = '\t') then (incr pos; skip ()) in
   let hex c = match c with
     | '0'..'9' -> Char.code c - 48 | 'a'..'f' -> Char.code c - 87 | 'A'..'F' -> Char.code c - 55
     | _ -> raise (Parse_error "hex") in
-  let rec expr () : sexp =
+  let rec expr () : Model.sexp =
     skip ();
     if !pos >= n then raise (Parse_error "eof");
     match s.[!pos] with
@@ -49,7 +47,7 @@ let parse (s : Stdlib.String.t) (pos : int ref) : sexp =
         if s.[!pos] = ')' then incr pos
         else (items := expr () :: !items; loop ()) in
       loop ();
-      SL (List.rev !items)
+      Model.SL (List.rev !items)
     | ')' -> raise (Parse_error "unexpected )")
     | '"' ->
       incr pos;
@@ -66,16 +64,16 @@ let parse (s : Stdlib.String.t) (pos : int ref) : sexp =
           loop ()
         | c -> Buffer.add_char b c; incr pos; loop () in
       loop ();
-      SA (coq_string (Buffer.contents b))
+      Model.SA (coq_string (Buffer.contents b))
     | _ ->
       let st = !pos in
       while !pos < n && not (List.mem s.[!pos] [' '; '\t'; '('; ')'; '"']) do incr pos done;
-      SA (coq_string (Stdlib.String.sub s st (!pos - st))) in
+      Model.SA (coq_string (Stdlib.String.sub s st (!pos - st))) in
   expr ()
 
-let rec print (b : Buffer.t) (x : sexp) : unit =
+let rec print (b : Buffer.t) (x : Model.sexp) : unit =
   match x with
-  | SA a ->
+  | Model.SA a ->
     let s = ocaml_string a in
     let plain = s <> "" && Stdlib.String.for_all (fun c ->
       (c >= 'a' && c <= 'z') || (c >= 'A' && c <= 'Z') || (c >= '0' && c <= '9') || c = '-' || c = '_' || c = '.' || c = ':') s in
@@ -88,12 +86,12 @@ let rec print (b : Buffer.t) (x : sexp) : unit =
         else Buffer.add_char b c) s;
       Buffer.add_char b '"'
     end
-  | SL l ->
+  | Model.SL l ->
     Buffer.add_char b '(';
     List.iteri (fun i y -> if i > 0 then Buffer.add_char b ' '; print b y) l;
     Buffer.add_char b ')'
 
-let entries : (Stdlib.String.t * (sexp -> sexp)) list = Entries.table
+let entries : (Stdlib.String.t * (Model.sexp -> Model.sexp)) list = Entries.table
 
 let () =
   try
@@ -108,11 +106,11 @@ let () =
           let x = parse line pos in
           (match List.assoc_opt name entries with
            | Some f -> f x
-           | None -> SL [SA (coq_string "unknown-entry")])
+           | None -> Model.SL [Model.SA (coq_string "unknown-entry")])
         with
-        | Parse_error m -> SL [SA (coq_string "parse-error"); SA (coq_string m)]
-        | Not_found -> SL [SA (coq_string "parse-error"); SA (coq_string "no entry name")]
-        | Stack_overflow -> SL [SA (coq_string "stack-overflow")] in
+        | Parse_error m -> Model.SL [Model.SA (coq_string "parse-error"); Model.SA (coq_string m)]
+        | Not_found -> Model.SL [Model.SA (coq_string "parse-error"); Model.SA (coq_string "no entry name")]
+        | Stack_overflow -> Model.SL [Model.SA (coq_string "stack-overflow")] in
       let b = Buffer.create 256 in
       print b out;
       print_string (Buffer.contents b);
